@@ -42,7 +42,9 @@ type Client struct {
 	kicked bool
 
 	NetId uint32 // learned from the first sentinel answer (0 = unknown)
-	sent  int
+	// SlowRead makes the read loop pause this long after every data message (a slow client:
+	// the server-side send queue fills up)
+	SlowRead time.Duration
 }
 
 const ioTimeout = 20 * time.Second
@@ -160,7 +162,11 @@ func (c *Client) readLoop() {
 			c.mu.Lock()
 			c.evs = append(c.evs, ev)
 			c.cond.Broadcast()
+			slow := c.SlowRead
 			c.mu.Unlock()
+			if slow > 0 {
+				time.Sleep(slow)
+			}
 		}
 	}
 }
@@ -225,6 +231,13 @@ func (c *Client) Closed() bool {
 	c.mu.Lock()
 	defer c.mu.Unlock()
 	return c.closed
+}
+
+// SetSlowRead makes the read loop pause after every data message.
+func (c *Client) SetSlowRead(d time.Duration) {
+	c.mu.Lock()
+	c.SlowRead = d
+	c.mu.Unlock()
 }
 
 // Close closes the socket.
